@@ -279,7 +279,7 @@ theorem consumeRest_indA : IndA (consumeRest (α := α)) := by
   ind_auto
 macro_rules | `(tactic| ind_leaf) => `(tactic| exact consumeRest_indA)
 
-theorem withRecover_run {β : Type} (f : P α (Option β)) (s : BP α) :
+theorem withRecover_run_ext {β : Type} (f : P α (Option β)) (s : BP α) :
     withRecover f s = if (f s).1.isNone then ((f s).1, { (f s).2 with cur := s.cur }) else f s := by
   have run : withRecover f s =
       ((f s).1, (if (f s).1.isNone then { (f s).2 with cur := s.cur } else (f s).2)) := by
@@ -295,13 +295,13 @@ theorem Ind.withRecover {β : Type} {f : P α (Option β)} {s : BP α} (h : Ind 
     Ind (withRecover f) s := by
   constructor
   · intro e
-    rw [withRecover_run, withRecover_run, h.ext e]
+    rw [withRecover_run_ext, withRecover_run_ext, h.ext e]
     split <;> rfl
-  · rw [withRecover_run]
+  · rw [withRecover_run_ext]
     split
     · exact h.toks
     · exact h.toks
-  · rw [withRecover_run]
+  · rw [withRecover_run_ext]
     split
     · exact h.cs
     · exact h.cs
